@@ -73,10 +73,18 @@ def get_docstr(xml_elem):
     return six.decode_string(xml_elem.get("comment", "")) or None
 
 
+def required(xml_elem, attribute):
+    value = xml_elem.get(attribute)
+    if value is None:
+        location = "<%s name=\"%s\">" % (xml_elem.tag, xml_elem.get("name", ""))
+        raise model.ParseError([(location, "missing attribute '%s'" % attribute)])
+    return value
+
+
 def make_constant(xml_elem):
     return model.Constant(
-        xml_elem.get("name"),
-        expand_operators(xml_elem.get("value")),
+        required(xml_elem, "name"),
+        expand_operators(required(xml_elem, "value")),
         docstring=get_docstr(xml_elem)
     )
 
@@ -84,14 +92,14 @@ def make_constant(xml_elem):
 def make_typedef(xml_elem):
     if "type" in xml_elem.attrib:
         return model.Typedef(
-            xml_elem.get("name"),
+            required(xml_elem, "name"),
             xml_elem.get("type"),
             docstring=get_docstr(xml_elem)
         )
 
     elif "primitiveType" in xml_elem.attrib and xml_elem.get("name") not in primitive_types.values():
         return model.Typedef(
-            xml_elem.get("name"),
+            required(xml_elem, "name"),
             primitive_types[xml_elem.get("primitiveType")],
             docstring=get_docstr(xml_elem)
         )
@@ -108,7 +116,7 @@ def make_enum(xml_elem):
     if len(xml_elem):
         members = []
         for member in xml_elem:
-            value = member.get('value')
+            value = required(member, 'value')
             try:
                 int_value = int(value, 0)
                 if int_value < 0:
@@ -116,19 +124,19 @@ def make_enum(xml_elem):
             except ValueError:
                 pass
             members.append(model.EnumMember(
-                member.get("name"),
+                required(member, "name"),
                 expand_operators(value),
                 docstring=get_docstr(member))
             )
 
-        enum = model.Enum(xml_elem.get("name"), members, docstring=get_docstr(xml_elem))
+        enum = model.Enum(required(xml_elem, "name"), members, docstring=get_docstr(xml_elem))
         check_for_duplicates(enum)
         return enum
 
 
 def make_struct_members(xml_elem, dynamic_array=False):
-    xml_elem_name = xml_elem.get("name")
-    xml_elem_type = xml_elem.get("type")
+    xml_elem_name = required(xml_elem, "name")
+    xml_elem_type = required(xml_elem, "type")
     optional = xml_elem.get("optional")
     optional = bool(optional) and optional.lower() == "true"
     dimension = xml_elem.find("dimension")
@@ -172,7 +180,7 @@ def make_struct(xml_elem, last_member_array_is_dynamic=False):
         for member in xml_elem:
             for sub_ in make_struct_members(member, last_member_array_is_dynamic):
                 members.append(sub_)
-        return model.Struct(xml_elem.get("name"), members, docstring=get_docstr(xml_elem))
+        return model.Struct(required(xml_elem, "name"), members, docstring=get_docstr(xml_elem))
 
 
 def make_union(xml_elem):
@@ -180,12 +188,12 @@ def make_union(xml_elem):
         members = []
         for member in xml_elem:
             members.append(model.UnionMember(
-                member.get("name"),
-                member.get("type"),
-                member.get("discriminatorValue"),
+                required(member, "name"),
+                required(member, "type"),
+                required(member, "discriminatorValue"),
                 docstring=get_docstr(member),
             ))
-        return model.Union(xml_elem.get('name'), members, docstring=get_docstr(xml_elem))
+        return model.Union(required(xml_elem, 'name'), members, docstring=get_docstr(xml_elem))
 
 
 class IsarParser(object):
@@ -193,14 +201,17 @@ class IsarParser(object):
     def __init__(self, warn=None):
         self.warn = warn
 
-    def parse(self, content, _, process_file):
+    def parse(self, content, parse_error_prefix, process_file):
         # by default FileProcessor decodes files while opening in _process_file method,
         # but ElementTree doesn't like it. ElementTree handles the encoding on its own,
         # so it's OK to encode the data back into utf-8 before parsing
         content = content.encode('utf-8')
 
         def collect():
-            root = ElementTree.fromstring(content)
+            try:
+                root = ElementTree.fromstring(content)
+            except ElementTree.ParseError as e:
+                raise model.ParseError([(parse_error_prefix, str(e))])
             for xml_elem in root.iterfind('.//*[@href]'):
                 yield make_include(xml_elem, process_file, self.warn)
 
